@@ -17,7 +17,8 @@
  * 3. TRACE mode (C09): IO_SHIM_TRACK=<path> IO_SHIM_LOG=<file> [IO_SHIM_SNAPDIR=<dir>].  Every
  *    open/ftruncate/mmap/munmap/msync/lseek/write/pwrite/fsync/close that concerns <path> is logged, one
  *    line per call, and (with SNAPDIR) the content of the file as the page cache holds it *before* the call
- *    is copied to <dir>/<index>.img.  IO_SHIM_SAMPLE_US=<n> adds a snapshot every n microseconds ("sample" lines).
+ *    is copied to <dir>/<index>.img.  IO_SHIM_SAMPLE_US=<n>[:<max>] adds at most <max> (default 40) timer snapshots
+ *    ("sample" lines), the first after n microseconds, each interval a quarter longer than the one before.
  *
  * 4. FAIL mode (debugging aid, process-wide counting unlike strace's per-thread counting):
  *    IO_SHIM_FAIL=<call>:<k>:<errno> makes the k-th call of that kind (read, write, pread, pwrite, ftruncate,
@@ -119,6 +120,16 @@ static struct { char *addr; size_t len; off_t off; } maps[64];
 static int nmaps;
 
 static void on_alarm(int sig);
+/* sampler: a bounded number of one-shot timers whose interval grows by a quarter each time, so that the number of
+   snapshots does not depend on how long the build takes (a slow, cold or loaded machine must not get more of them) */
+static long sample_interval_us, sample_left;
+static void arm_sample_timer(void) {
+  struct itimerval it;
+  memset(&it, 0, sizeof it);
+  it.it_value.tv_sec = sample_interval_us / 1000000;
+  it.it_value.tv_usec = sample_interval_us % 1000000;
+  setitimer(ITIMER_REAL, &it, NULL);
+}
 
 static void init(void) {
   static int done;
@@ -164,15 +175,15 @@ static void init(void) {
   if (track_path && lp) log_fd = real_open(lp, O_WRONLY | O_CREAT | O_TRUNC | O_CLOEXEC, 0644);
   const char *us = getenv("IO_SHIM_SAMPLE_US");
   if (log_fd >= 0 && us && atol(us) > 0) {
+    const char *mx = strchr(us, ':');
+    sample_interval_us = atol(us);
+    sample_left = mx ? atol(mx + 1) : 40;
     struct sigaction sa;
     memset(&sa, 0, sizeof sa);
     sa.sa_handler = on_alarm;
     sa.sa_flags = SA_RESTART;
     sigaction(SIGALRM, &sa, NULL);
-    struct itimerval it;
-    it.it_interval.tv_sec = it.it_value.tv_sec = atol(us) / 1000000;
-    it.it_interval.tv_usec = it.it_value.tv_usec = atol(us) % 1000000;
-    setitimer(ITIMER_REAL, &it, NULL);
+    arm_sample_timer();
   }
 }
 
@@ -285,7 +296,12 @@ static void logcall(const char *fmt, ...) {
 static void on_alarm(int sig) {
   (void)sig;
   int saved = errno;
-  if (!in_log && track_fd >= 0) logcall("sample");
+  if (!in_log && track_fd >= 0) {       /* only instants at which the output file is open count (and lengthen the interval) */
+    logcall("sample");
+    --sample_left;
+    sample_interval_us += sample_interval_us / 4 + 1;
+  }
+  if (sample_left > 0) arm_sample_timer();
   errno = saved;
 }
 
